@@ -1349,9 +1349,10 @@ class FlipLanesLoop(_Prim):
         if self.pc["n_loops"] != 1 or self.pc["targets"] != ["i"]:
             raise EngineLimit("lane loop restructured: %r loops, targets %r" % (self.pc["n_loops"], self.pc["targets"]))
         names = self.pc["locals"]
-        for nm in ("kdual", "p_primal", "p_tangent", "est"):
+        for nm in ("kdual", "p_primal", "p_tangent"):
             if nm not in names:
-                raise EngineLimit("lane loop piece has no local %r" % nm)
+                raise EngineLimit("lane loop piece has no parameter %r" % nm)
+        self.acc = None  # the accumulator local is identified by role below (a renamed local must not matter)
         saved = (adev.flip, getattr(adev, "int", None), getattr(adev, "range", None))
         adev.flip = LaneFlip()
         adev.int = lambda x: x if isinstance(x, Sym) else int(x)
@@ -1363,18 +1364,22 @@ class FlipLanesLoop(_Prim):
             if case == "prefix":
                 _k, it = self.pc["iter"](**locs)
                 self.iter = it
+                self.acc = self._accumulator(locs) if kind == "fallthrough" else None
                 return kind, locs
             if kind != "fallthrough":
                 raise EngineLimit("prefix returned early")
             self.n_kcalls = len(self.k.dcalls)
+            self.acc = self._accumulator(locs)
             # arbitrary loop state satisfying the invariant: est = PS(i)
             self.PS = z3.Function(eng.fresh_name("PS"), z3.IntSort(), z3.RealSort())
             if case == "body":
                 self.i = fresh("lane", z3.IntSort())
                 eng.assume(z3.And(self.i >= 0, self.i < self.B))
-                locs = dict(locs, est=Sym(self.PS(self.i)), i=Sym(self.i))
+                locs = dict(locs, i=Sym(self.i))
+                locs[self.acc] = Sym(self.PS(self.i))
                 return self.real(self.pc["body"], **locs)
-            locs = dict(locs, est=Sym(self.PS(self.B)))
+            locs = dict(locs)
+            locs[self.acc] = Sym(self.PS(self.B))
             return self.real(self.pc["suffix"], **locs)
         finally:
             adev.flip = saved[0]
@@ -1383,6 +1388,14 @@ class FlipLanesLoop(_Prim):
                     adev.__dict__.pop(nm, None)
                 else:
                     setattr(adev, nm, v)
+
+    def _accumulator(self, locs):
+        """the loop's accumulator BY ROLE: the real local that the prefix initialises to zero (zeros_like of the value)
+        - the only numeric zero among the locals the prefix defines"""
+        zeros = [n for n, v in locs.items() if isinstance(v, Sym) and v.e.sort() == z3.RealSort() and z3.is_rational_value(z3.simplify(v.e)) and z3.simplify(v.e).numerator_as_long() == 0]
+        if len(zeros) != 1:
+            raise EngineLimit("lane loop: cannot identify the accumulator by role (zero-initialised reals: %r)" % (zeros,))
+        return zeros[0]
 
     def term(self, i):
         k = self.k
@@ -1400,12 +1413,12 @@ class FlipLanesLoop(_Prim):
                 return
             yield "one_vector_of_bernoulli_draws_with_the_given_probabilities", len(self.draws) == 1 and self.draws[0] is self.p
             yield "continuation_evaluated_once_on_the_drawn_vector", len(k.dcalls) == 1
-            yield "estimate_starts_at_zero(PS(0))", same(locs["est"], 0.0)
+            yield "estimate_starts_at_zero(PS(0))", self.acc is not None and same(locs[self.acc], 0.0)
             yield "loop_runs_over_every_lane(range(B))", isinstance(self.iter, _SymRange) and same(self.iter.n, Sym(self.B))
             return
         if case == "body":
             kind, locs = path.value
-            yield "invariant_preserved(est' = PS(i) + (f(b|i=T) - f(b|i=F)) p'_i for either value of b_i)", same(locs["est"], Sym(self.PS(self.i) + self.term(self.i)))
+            yield "invariant_preserved(est' = PS(i) + (f(b|i=T) - f(b|i=F)) p'_i for either value of b_i)", same(locs[self.acc], Sym(self.PS(self.i) + self.term(self.i)))
             yield "one_more_continuation_call_per_lane", len(k.dcalls) == self.n_kcalls + 1
             return
         kind, out = path.value
